@@ -883,6 +883,13 @@ class OpaqueSymbolHashRule(HashRule):
 
     def did_change(self) -> bool:
         new_ref = self.resolver()
+        if (
+            not callable(new_ref)
+            and not inspect.ismodule(new_ref)
+            and GlobalVariableHashRule._serialize_value(new_ref) is not None
+        ):
+            # A value that Memento can describe by now (a container changed in place)
+            return True
         if new_ref is self.ref:
             return False
         # Looking up a method of an object makes a new (equal) method object each time
@@ -1242,6 +1249,17 @@ class NonMementoFunctionHashRule(HashRule):
 
         # Only add this function and descend if it is within the package scope.
         if inspect.getmodule(self.src_fn).__package__ not in package_scope:
+            # A function of another package does not take part in the version, but the name
+            # can be bound to a function of this package later on: watch it
+            result.add(
+                OpaqueSymbolHashRule(
+                    self.parent_symbol,
+                    self.symbol,
+                    self.resolver,
+                    self.src_fn,
+                    self.first_level,
+                )
+            )
             return
 
         # Add self
